@@ -403,9 +403,23 @@ def check_C08(chk, tier):
     for prec in (["d"] if tier == "quick" else ["d", "z"]):
         run_phase(chk, "gstrf-user-workspace/" + prec, H + "h_factor.c", cs, ["C08.", "C02.", "C03."], prec=prec, budget_s=200 if tier == "quick" else 1800, monitor_ids=("ws_viol",), crash_is_violation=True,
                   bounds="?gstrf with caller workspace of every length in the stated sweep (n<=4 quick / n<=6 thorough), and library allocation failing at the k-th request (k<40/80)", validate_samples=0)
+    growth_ws_phase(chk, tier, ["C08.", "C02.", "C03."])
     # size query through the expert driver
     qs = [xcase(2, 15, lworkmode=-1, equil=e, storage=st) for e in (0, 1) for st in (0, 1)] + [xcase(3, 511, lworkmode=-1, colperm=cp) for cp in (0, 2, 3)]
     run_phase(chk, "gssvx-size-query", H + "h_gssvx.c", qs, ["C08."], prec="d", budget_s=100, bounds="lwork = -1 through ?gssvx, n<=3", validate_samples=0)
+
+
+def growth_ws_phase(chk, tier, ids, asan=False):
+    """?gstrf in a caller workspace that fits only after in-place growth of UCOL/USUB/LSUB/LUSUP, on tip-first arrow matrices of order 8..12 whose late columns carry
+    long U segments into the first supernode. The repo's guarded hook (XIAOYELI_SUPERLU_VERIF, ?memory.c) poisons the bytes vacated by every in-place shift, so a
+    pointer that still refers to the old place of a moved array shows up as a wrong subscript / non-finite value on these paths (the caller-workspace analogue of
+    use-after-free under library allocation)."""
+    cs = []
+    for n_, tn, lo, hi in ((8, "t122", 1000, 2400), (6, "t122", 700, 1700)) if tier == "quick" else ((8, "t122", 800, 3000), (6, "t122", 500, 2000), (10, "t122", 1200, 4200), (12, "t2_4_4", 1500, 6000), (10, "tn1n", 1200, 4200)):
+        t = T[tn]
+        for lw in range(lo, hi, 8 if tier == "quick" else 4): cs.append(fcase(n_, n_, C.arrow(n_, False), tune=tuple(t[:5]) + (1,), symcols=1 << (n_ - 1), lwork=lw, woff=(lw // 8) % 2 * 4))
+    run_phase(chk, "gstrf-user-workspace/in-place growth with poisoned vacated bytes/d" + ("(asan)" if asan else ""), H + "h_factor.c", cs, ids, prec="d", budget_s=120 if tier == "quick" else 1200, monitor_ids=("ws_viol",),
+              crash_is_violation=True, validate_samples=0, asan=asan, bounds="tip-first arrow n = 6, 8 (..12 thorough), fill estimate 1, caller workspace lengths on an 8-byte (4-byte) grid across the fits / does-not-fit boundary, symbolic last column; hook: vacated bytes poisoned")
 
 
 # ------------------------------------------------------------------------------------------------ C10 orderings / etree
@@ -577,6 +591,10 @@ def check_C19(chk, tier):
     run_phase(chk, "storage(asan)/d", H + "h_storage.c", sc_, ["C19.", "C07.workspace"], prec="d", budget_s=150, bounds="complete and incomplete LU under expansions / caller workspace", **kw)
     bc = [bcase(3, 511, C.band(3, 1, 0), symcols=4, nsolve=2, nrhs=2, ldbx=2, two=1), bcase(2, 15, symcols=-1), bcase(5, C.dense(5, 5), C.arrow(5), symcols=0, nsolve=3, nrhs=3, ldbx=3, two=1)]
     run_phase(chk, "bridge(asan)/d", H + "h_bridge.c", bc, ["C19.", "C20.free"], prec="d", budget_s=100, extra_src=(REPO + "/FORTRAN/c_fortran_dgssv.c",), bounds="Fortran bridge factor/solve/free", **kw)
+    # stale pointers after in-place growth inside a caller workspace: the poisoned vacated bytes are consumed => wrong subscripts (structure / identity oracles) or a sanitizer report
+    growth_ws_phase(chk, tier, ["C19.", "C02.", "C03.", "C08."], asan=True)
+    fa = [fcase(n_, n_, pat, tune=tuple(T[tn][:5]) + (1,), symcols=1 << (n_ - 1), failat=k) for n_, pat, tn in ((3, 511, "t122"), (5, C.arrow(5, False), "t122"), (8, C.arrow(8, False), "t122")) for k in range(1, 45 if q else 90)]
+    run_phase(chk, "gstrf with the k-th library allocation failing (asan)/d", H + "h_factor.c", fa, ["C19.", "C08."], prec="d", budget_s=100 if q else 600, bounds="library allocation, fill estimate 1, request k = 1..44 (89) fails: out-of-space return or success, ledger empty afterwards", **kw)
     if not q:
         run_phase(chk, "factor(asan)/z", H + "h_factor.c", [c for c in fc if c[1] <= 2 or c[14] != -1][:150], ["C19."], prec="z", budget_s=900, bounds="complex factor lifecycle", env=CPLX_ENV, **kw)
 
